@@ -2,7 +2,7 @@
     unit, list, prod, sumbool, sumor map to OCaml's; nat, positive, N, Z stay
     the extracted inductive types.  No Extract Constant. *)
 From Coq Require Import Extraction ExtrOcamlBasic.
-From Meddly Require Import Model.DD Model.Build Model.Scalar Model.Bits Gen.Terminal Model.MemSpec.
+From Meddly Require Import Model.DD Model.Build Model.Scalar Model.Bits Gen.Terminal Model.MemSpec Model.Audit.
 Extraction Language OCaml.
 Extraction "model.ml"
   DD.dd_eqb DD.mk DD.unpack DD.evalS DD.evalL DD.eval DD.reducedb DD.of_fun
@@ -11,4 +11,5 @@ Extraction "model.ml"
   Scalar.scalar2 Scalar.scalar2_undefined Scalar.compl Scalar.conv
   Terminal.getIntegerHandle Terminal.getRealHandle Terminal.setFromHandle_INTEGER
   Terminal.setFromHandle_REAL Terminal.setFromHandle_BOOLEAN Terminal.intMin Terminal.intMax
-  MemSpec.accept MemSpec.fl_init MemSpec.fl_request MemSpec.fl_recycle.
+  MemSpec.accept MemSpec.fl_init MemSpec.fl_request MemSpec.fl_recycle
+  Audit.audit.
